@@ -1,6 +1,6 @@
 (* Proofs for C06, bus level: what the model of the gate and of its callers
    (Policy/PolicyBus.v) guarantees about denied messages and denied name requests. *)
-From DV Require Import Lib.Base Gen.Tables Gen.PolicyTables Wire.Names Policy.Policy Policy.PolicyBus Spec.PolicySpec.
+From DV Require Import Lib.Base Gen.Tables Gen.PolicyTables Wire.Names Policy.Policy Policy.PolicyConfig Policy.PolicyBus Spec.PolicySpec.
 Local Open Scope N_scope.
 
 Lemma rules_of_pending b p i : rules_of (set_pending b p) i = rules_of b i.
@@ -97,21 +97,23 @@ Definition addressed_of (b : bus) (d : bytes) : option (option N) :=
 Definition sender_admits_error (b : bus) (s : N) (orig : msg) : bool :=
   verdict_ok (fst (gate b None (Some s) (Some s) (error_msg b s DBUS_ERROR_ACCESS_DENIED_str orig))).
 
+Definition is_live (b : bus) (s : N) : Prop := exists c, get_conn b s = Some c /\ c_alive c = true.
+
 Definition C06_denied_call_full_statement : Prop :=
-  forall b s m arg d addr,
-    get_conn b s <> None -> m_dest m = Some d -> addressed_of b d = Some addr ->
+  forall e b s m arg d addr,
+    is_live b s -> m_dest m = Some d -> addressed_of b d = Some addr ->
     verdict_ok (fst (gate b (Some s) addr addr m)) = false ->
-    exists b1, do_send b s m arg = Done b1 [(s, WError DBUS_ERROR_ACCESS_DENIED_str)].
+    exists b1, do_send e b s m arg = Done b1 [(s, WError DBUS_ERROR_ACCESS_DENIED_str)].
 
 (* proved part: the error reply is produced and nothing else happens; it reaches the sender exactly when the sender's own
    receive rules admit an error from the bus driver (bus_transaction_send_from_driver applies the policy to it) *)
-Theorem denied_call_gets_access_denied_partial b s m arg d addr :
-  get_conn b s <> None -> m_dest m = Some d -> addressed_of b d = Some addr ->
+Theorem denied_call_gets_access_denied_partial e b s m arg d addr :
+  is_live b s -> m_dest m = Some d -> addressed_of b d = Some addr ->
   verdict_ok (fst (gate b (Some s) addr addr m)) = false ->
   exists b1, b_reg b1 = b_reg b /\ b_conns b1 = b_conns b /\
-    do_send b s m arg = Done b1 (if sender_admits_error b1 s m then [(s, WError DBUS_ERROR_ACCESS_DENIED_str)] else []).
+    do_send e b s m arg = Done b1 (if sender_admits_error b1 s m then [(s, WError DBUS_ERROR_ACCESS_DENIED_str)] else []).
 Proof.
-  intros Hc Hd Ha Hg. unfold do_send. destruct (get_conn b s); [|congruence]. rewrite Hd.
+  intros [cs [Hc Hl]] Hd Ha Hg. unfold do_send. rewrite Hc, Hl. simpl. rewrite Hd.
   unfold addressed_of in Ha. destruct (bytes_eqb d DBUS_SERVICE_DBUS_str).
   - inversion Ha; subst addr. destruct (gate b (Some s) None None m) as [v pend]. simpl in Hg. rewrite Hg. simpl.
     exists (set_pending b pend). repeat split.
@@ -124,24 +126,28 @@ Qed.
 Definition w_name0 : bytes := [58; 49; 46; 48].  (* ":1.0" *)
 Definition w_name1 : bytes := [58; 49; 46; 49].  (* ":1.1" *)
 Definition w_bus : bus :=
-  mkBus policy_empty [mkConn 0 [] w_name0 false false; mkConn 0 [] w_name1 false false] [(w_name0, [0]); (w_name1, [1])] [].
+  mkBus policy_empty [mkConn true 0 [0] false [] w_name0 false false; mkConn true 0 [0] false [] w_name1 false false]
+        [(w_name0, [0]); (w_name1, [1])] [] INil 2.
+Definition w_env : env := daemon_env (fun _ => None) (fun _ => None).
 Definition w_call : msg := mkMsg DBUS_MESSAGE_TYPE_METHOD_CALL (Some [47; 112]) None (Some [77]) None (Some w_name1) None 0 0 7 false.
 
 Theorem denied_call_refuted : ~ C06_denied_call_full_statement.
 Proof.
-  intros H. specialize (H w_bus 0 w_call [] w_name1 (Some 1)).
+  intros H. specialize (H w_env w_bus 0 w_call [] w_name1 (Some 1)).
   destruct H as [b1 Hb]; try (vm_compute; congruence).
-  vm_compute in Hb. discriminate.
+  - eexists. split; vm_compute; reflexivity.
+  - vm_compute in Hb. discriminate.
 Qed.
 
 (* ------------------------------------------------------------------ a denied RequestName changes no ownership *)
-Theorem denied_own_changes_nothing b s m arg b1 out :
-  do_send b s m arg = Done b1 out ->
+Theorem denied_own_changes_nothing e b s m arg b1 out :
+  do_send e b s m arg = Done b1 out ->
   m_dest m = Some DBUS_SERVICE_DBUS_str -> m_type m = DBUS_MESSAGE_TYPE_METHOD_CALL -> obytes_is (m_member m) s_RequestName = true ->
   check_can_own (rules_of b s) arg = Some false ->
   b_reg b1 = b_reg b /\ forall c w, In (c, w) out -> c = s /\ exists e, w = WError e.
 Proof.
-  unfold do_send. intros H Hd Ht Hm Ho. destruct (get_conn b s) as [k|]; [|discriminate]. rewrite Hd in H.
+  unfold do_send. intros H Hd Ht Hm Ho. destruct (get_conn b s) as [k|]; [|discriminate].
+  destruct (c_alive k); simpl in H; [|inversion H; subst; split; [reflexivity | intros c w []]]. rewrite Hd in H.
   rewrite bytes_eqb_refl in H. destruct (gate b (Some s) None None m) as [v pend].
   destruct (verdict_ok v); simpl in H.
   - rewrite Ht, N.eqb_refl in H. simpl in H. destruct (to_driver_iface_ok m); simpl in H; [|discriminate].
@@ -150,4 +156,88 @@ Proof.
       [destruct (match arg with 58 :: _ => true | _ => false end); [|destruct (bytes_eqb arg DBUS_SERVICE_DBUS_str)]|];
       inversion H; subst; (split; [reflexivity|]); intros c w Hin; apply in_error_reply in Hin; destruct Hin; eauto.
   - inversion H; subst. split; [reflexivity|]. intros c w Hin. apply in_error_reply in Hin. destruct Hin; eauto.
+Qed.
+
+(* ------------------------------------------------------------------ connection admission and reload *)
+From DV Require Import Spec.PolicyConfigSpec Proofs.PolicyProofs Proofs.PolicyConfigProofs.
+
+(* a connection that the user=/group= rules refuse is closed: it gets no name, no policy, and nothing else changes *)
+Theorem connect_refused e b uid gids atc dbg hs :
+  allow_unix_user (b_policy b) (uid =? e_owner e) uid dbg = false ->
+  exists b1, do_connect e b uid gids atc dbg hs = Done b1 [(N.of_nat (length (b_conns b)), WRefused)] /\
+             b_policy b1 = b_policy b /\ b_reg b1 = b_reg b /\ b_pending b1 = b_pending b /\ b_next b1 = b_next b /\
+             (forall i c, get_conn b i = Some c -> get_conn b1 i = Some c).
+Proof.
+  intros H. unfold do_connect. rewrite H. simpl. eexists. split; [reflexivity|]. repeat split.
+  intros i c Hc. unfold get_conn in *. simpl. rewrite nth_error_app1; auto. apply nth_error_Some. congruence.
+Qed.
+
+Theorem connect_admitted e b uid gids atc dbg hs :
+  allow_unix_user (b_policy b) (uid =? e_owner e) uid dbg = true ->
+  exists b1 out, do_connect e b uid gids atc dbg hs = Done b1 out /\
+     get_conn b1 (N.of_nat (length (b_conns b))) =
+       Some (mkConn true uid gids atc (e_mk e (b_policy b) uid gids atc) (unique_name (b_next b)) false false) /\
+     b_next b1 = b_next b + 1.
+Proof.
+  intros H. unfold do_connect. rewrite H. simpl. eexists. eexists. split; [reflexivity|]. split; [|reflexivity].
+  unfold get_conn. simpl. rewrite Nnat.Nat2N.id, nth_error_app2, PeanoNat.Nat.sub_diag; auto.
+Qed.
+
+Definition reloaded (e : env) (b : bus) (p : policy) : bus :=
+  mkBus p (map (reload_conn e p) (b_conns b)) (b_reg b) (b_pending b) (b_files b) (b_next b).
+
+(* ReloadConfig: a configuration that does not load leaves the bus exactly as it was *)
+Theorem reload_failed e b s m a :
+  load_config (e_ru e) (e_rg e) (b_files b) = LErr a -> exists out, do_reload e b s m = HErr b out.
+Proof. intros H. unfold do_reload. rewrite H. eauto. Qed.
+
+(* a configuration that loads replaces the bus-wide policy and every live connection's rule list, and nothing else:
+   names, queues, pending replies, match rules, unique names stay *)
+Theorem reload_effect e b s m p :
+  load_config (e_ru e) (e_rg e) (b_files b) = LOk p ->
+  (exists out, do_reload e b s m = HOk (reloaded e b p) out) /\
+  b_reg (reloaded e b p) = b_reg b /\ b_pending (reloaded e b p) = b_pending b /\
+  forall i c, get_conn b i = Some c ->
+    exists c', get_conn (reloaded e b p) i = Some c' /\
+      c_alive c' = c_alive c /\ c_name c' = c_name c /\ c_sig c' = c_sig c /\ c_eav c' = c_eav c /\
+      c_uid c' = c_uid c /\ c_gids c' = c_gids c /\
+      (c_alive c = true -> c_rules c' = e_mk e p (c_uid c) (c_gids c) (c_atc c)).
+Proof.
+  intros H. split; [unfold do_reload; rewrite H; eauto|]. split; [reflexivity|]. split; [reflexivity|].
+  intros i c Hc. unfold get_conn, reloaded in *. simpl. rewrite nth_error_map, Hc. simpl.
+  eexists. split; [reflexivity|]. unfold reload_conn. destruct (c_alive c) eqn:A; simpl; repeat split; auto; discriminate.
+Qed.
+
+(* the message that asks for the reload is itself judged by the OLD policy: refused means nothing is reloaded *)
+Theorem reload_judged_by_old_policy e b s m arg :
+  is_live b s -> m_dest m = Some DBUS_SERVICE_DBUS_str ->
+  verdict_ok (fst (gate b (Some s) None None m)) = false ->
+  exists b1 out, do_send e b s m arg = Done b1 out /\ b_policy b1 = b_policy b /\ b_conns b1 = b_conns b.
+Proof.
+  intros [cs [Hc Hl]] Hd Hg. unfold do_send. rewrite Hc, Hl. simpl. rewrite Hd, bytes_eqb_refl.
+  destruct (gate b (Some s) None None m) as [v pend]. simpl in Hg. rewrite Hg. simpl. eauto.
+Qed.
+
+(* after a reload every live connection decides by the manual page applied to the NEW tree of files *)
+Theorem reload_decides_by_new_config ru rg b p i c :
+  load_config ru rg (b_files b) = LOk p -> get_conn b i = Some c -> c_alive c = true ->
+  exists cfg, denote ru rg true (b_files b) = DOk cfg /\
+    forall rules, rules = spec_client_rules (cfg_rules ru rg cfg) (c_uid c) (c_gids c) (c_atc c) ->
+    (forall r, In r rules -> catch_all_c r = true -> universal r = true) ->
+    forall reg mm, reg_wf reg -> msg_wf mm = true ->
+      (forall rr eav recv,
+          check_can_send (rules_of (reloaded (daemon_env ru rg) b p) i) rr recv reg mm = spec_can_send dev_code rules (mkSendCtx rr eav recv reg) mm) /\
+      (forall rr snd addressed proposed,
+          check_can_receive (rules_of (reloaded (daemon_env ru rg) b p) i) reg rr snd addressed proposed mm =
+          spec_can_receive dev_code rules (mkRecvCtx rr (is_eavesdropping addressed proposed mm) snd reg) mm).
+Proof.
+  intros L Hc Ha. destruct (config_tree_order ru rg _ _ L) as [cfg [D O]]. exists cfg. split; auto.
+  intros rules -> Hu reg mm Hr Hm.
+  destruct (proj2 (proj2 (proj2 (reload_effect (daemon_env ru rg) b i (mkMsg 0 None None None None None None 0 0 0 false) p L))) i c Hc)
+    as [c' [G [_ [_ [_ [_ [_ [_ R]]]]]]]].
+  unfold rules_of. rewrite G, (R Ha). simpl. unfold create_client_policy. rewrite O.
+  destruct (optimize_partial _ Hu) as [Hs [Hrc _]].
+  split; intros.
+  - rewrite Hs. apply send_last_match; auto.
+  - rewrite Hrc. apply receive_last_match; auto.
 Qed.
